@@ -92,7 +92,7 @@ var c35Kinds = map[string]c35Kind{
 		}
 		return c35RespSection
 	}},
-	"T":  {"T", c35TypeHeaders, c35Fixed(c35TrailerSection...)},
+	"T": {"T", c35TypeHeaders, c35Fixed(c35TrailerSection...)},
 	// HEADERS whose field section is refused at its first byte (Required
 	// Insert Count 1 with an empty dynamic table), the rest of the payload
 	// still unread at that point.
@@ -360,18 +360,18 @@ func c35IsSubsequence(a, b []byte) bool {
 // ------------------------------------------------------------ observation
 
 type c35Obs struct {
-	msg        bool   // handler invoked / RoundTrip returned a response
-	calls      int    // handler invocations
-	body       []byte // bytes the body reader delivered
-	bodyErr    error  // final Read error (io.EOF on clean end)
-	livelock   bool   // body reader returned (0, nil) 10000 times in a row
+	msg        bool       // handler invoked / RoundTrip returned a response
+	calls      int        // handler invocations
+	body       []byte     // bytes the body reader delivered
+	bodyErr    error      // final Read error (io.EOF on clean end)
+	livelock   bool       // body reader returned (0, nil) 10000 times in a row
 	again      []c35Again // results of the Reads issued after bodyErr
 	afterBody  []byte     // bytes those Reads delivered
-	rtErr      error  // client: RoundTrip error
-	panicked   string // panic recovered inside the handler / reader goroutine
-	peerData   []byte // what the raw peer read from its side of the stream
-	peerErr    error  // and how that read ended
-	connErr    error  // connection state seen by the raw peer (context.Canceled: alive)
+	rtErr      error      // client: RoundTrip error
+	panicked   string     // panic recovered inside the handler / reader goroutine
+	peerData   []byte     // what the raw peer read from its side of the stream
+	peerErr    error      // and how that read ended
+	connErr    error      // connection state seen by the raw peer (context.Canceled: alive)
 	harnessErr string
 }
 
@@ -763,9 +763,13 @@ var (
 )
 
 func c35StartChild() (*c35ChildProc, error) {
-	exe, err := os.Executable()
-	if err != nil {
-		return nil, err
+	// The running image itself: the file it was started from may be rebuilt
+	// or removed by a concurrent run of the driver.
+	exe := "/proc/self/exe"
+	if _, err := os.Stat(exe); err != nil {
+		if exe, err = os.Executable(); err != nil {
+			return nil, err
+		}
 	}
 	cmd := exec.Command(exe, "-test.run", "^TestC35IsolatedCase$", "-test.count", "1", "-test.timeout", "0")
 	for _, kv := range os.Environ() {
@@ -1224,8 +1228,8 @@ func c35CheckCtl(w *vx.W, x c35CtlCase) {
 
 func TestVerif_C35(t *testing.T) {
 	vx.Run(t, "C35", func(c *vx.Ctx) {
-		c.Rule("stream part: frame sequences over {HEADERS(valid head), HEADERS(trailers), DATA of 0/1/5 bytes, unknown types 0x21 / 0x40 / 0x1f*2^56+0x21, SETTINGS, GOAWAY, PUSH_PROMISE (thorough: + CANCEL_PUSH, MAX_PUSH_ID), HTTP/2-reserved types 0x02 0x09 (thorough: + 0x06 0x08)}: every sequence of length <= 2, every sequence of length 3 (thorough: and of length 4 over the quick alphabet) that starts with the head or with an unknown frame followed by the head; each with frame lengths encoded minimally and as 8-byte varints (quick: 8-byte only for sequences of <= 2 frames), and the stream FIN at EVERY byte offset of the encoded sequence; delivery: everything and FIN in one STREAM frame; for minimal encodings also with the last byte arriving together with FIN after the rest was consumed; sequences of length <= 2 also one byte per packet; played against the real server (request stream) and the real client (response stream of a RoundTrip) by a raw QUIC peer. control part: stream type in {control, push, QPACK encoder, QPACK decoder, reserved 0x21, 2-byte unknown, truncated varint} x every sequence of <= 2 (thorough: 3) control frames from a 23-entry alphabet (SETTINGS variants incl. duplicate / reserved HTTP/2 identifiers / content running past the frame, DATA, HEADERS, GOAWAY, CANCEL_PUSH, MAX_PUSH_ID, PUSH_PROMISE, unknown, HTTP/2-reserved) x {open, FIN} and a duplicate stream of the type, against server and client. non-trivial = the case ran to quiescence and the delivered body bytes, end-of-body error, stream reset code and connection close code were compared with the reference frame parser")
-		c.Assume("left open (recorded as outcomes, not judged): the error code used to refuse a message that does not start with HEADERS or contains a forbidden frame, HTTP/2-reserved frame types (skip or refuse), a frame *header* cut by FIN, FIN on a control stream, which of H3_FRAME_ERROR-carrying places reports a truncation (body Read error, RoundTrip error, stream reset code, connection close code all count)")
+		c.Rule("stream part: frame sequences over {HEADERS(valid head), HEADERS(trailers), HEADERS(field section refused at its first byte, rest of the payload unread), DATA of 0/1/5 bytes, unknown types 0x21 / 0x40 / 0x1f*2^56+0x21, SETTINGS, GOAWAY, PUSH_PROMISE (thorough: + CANCEL_PUSH, MAX_PUSH_ID), HTTP/2-reserved types 0x02 0x09 (thorough: + 0x06 0x08)}: every sequence of length <= 2, every sequence of length 3 (thorough: and of length 4 over the quick alphabet) that starts with the head or with an unknown frame followed by the head; each with frame lengths encoded minimally and as 8-byte varints (quick: 8-byte only for sequences of <= 2 frames), and the stream FIN at EVERY byte offset of the encoded sequence; delivery: everything and FIN in one STREAM frame; for minimal encodings also with the last byte arriving together with FIN after the rest was consumed; sequences of length <= 2 also one byte per packet; played against the real server (request stream) and the real client (response stream of a RoundTrip) by a raw QUIC peer. The application reads the body with a 3-byte buffer up to the first error (io.EOF included) and stops; read-after-error: every one-STREAM-frame case of the shape (unknown|reserved)* head ... whose FIN lies at or behind the end of the head is ALSO run with the application issuing len(sequence)+1 further Reads after that first error, whatever they return, for every pair of buffer sizes from {1, 16} used in turn. over-read part: HEADERS frames whose field section ends inside a QPACK element (no byte at all; index continuation of an indexed field line; value-length continuation of a literal with name reference; thorough: + Required Insert Count continuation; Delta Base missing; name-length continuation of a literal with literal name) as message head and as trailers in the shapes O, U O, H O, H O D, H D O (thorough: 13 shapes, also 8-byte lengths), FIN at every offset from the end of that frame on, all delivery modes and read-after-error schedules as above, both sides; each case of this part runs in a child process (one per shard, restarted when it dies), so a panic on an implementation goroutine is reported like any other violation, signature panic:<implementation function nearest to the panic>. control part: stream type in {control, push, QPACK encoder, QPACK decoder, reserved 0x21, 2-byte unknown, truncated varint} x every sequence of <= 2 (thorough: 3) control frames from a 23-entry alphabet (SETTINGS variants incl. duplicate / reserved HTTP/2 identifiers / content running past the frame, DATA, HEADERS, GOAWAY, CANCEL_PUSH, MAX_PUSH_ID, PUSH_PROMISE, unknown, HTTP/2-reserved) x {open, FIN} and a duplicate stream of the type, against server and client. non-trivial = the case ran to quiescence and the delivered body bytes (ALL bytes the body ever returned, also after errors, must be DATA payload bytes in stream order), end-of-body error, stream reset code and connection close code were compared with the reference frame parser")
+		c.Assume("left open (recorded as outcomes, not judged): the error code used to refuse a message that does not start with HEADERS or contains a forbidden frame, HTTP/2-reserved frame types (skip or refuse), a frame *header* cut by FIN, FIN on a control stream, which of H3_FRAME_ERROR-carrying places reports a truncation (body Read error, RoundTrip error, stream reset code, connection close code all count); whether a body error is returned again by later Reads and whether DATA frames behind it are still delivered (the property only forbids non-DATA bytes); which error code a HEADERS frame that over-reads its limit produces (the QPACK layer turns the frame error into QPACK_DECOMPRESSION_FAILED: same root cause as the known truncated-HEADERS findings) - for these frames only the panic and body clauses are judged")
 		c.Assume("the QUIC layer delivers stream bytes and FIN faithfully (C19/C20); the in-memory network is loss-free")
 
 		alphaQuick := []string{"H", "T", "Tx", "D0", "D1", "D5", "U21", "Ubig", "S", "G", "P", "R2", "R9"}
@@ -1315,12 +1319,45 @@ func TestVerif_C35(t *testing.T) {
 		}
 		vx.Enumerate(c, "stream", vx.Opts{Serial: true, Crumb: true}, genStream, c35CheckStream)
 
-		// Over-read part: HEADERS frames whose field section ends inside a QPACK
-		// element, as message head and as trailers, with and without frames
-		// around them; FIN at every offset from the end of that frame on.
-		overKinds := []string{"Oe", "Or", "Ob", "Oi", "Ov", "On"}
+		ctlAlpha := []string{"S", "S6", "Sdup", "Sgre", "Sh2", "Sh3", "Sh4", "Sh5", "Sover", "Sover8", "Sodd", "D", "H", "G", "C", "M", "P", "U21", "U40", "Ubig", "R2", "R9", "pad"}
+		ctlLen := vx.Pick(c, 2, 3)
+		genCtl := func(yield func(c35CtlCase) bool) {
+			for _, side := range []string{"server", "client"} {
+				for _, st := range []string{"control", "push", "encoder", "decoder", "reserved", "unknown2", "truncated"} {
+					max := ctlLen
+					if st != "control" {
+						max = 1
+					}
+					if !vx.Strings(ctlAlpha, 0, max, func(s []string) bool {
+						for _, fin := range []bool{false, true} {
+							if !yield(c35CtlCase{Side: side, SType: st, Seq: s, Fin: fin}) {
+								return false
+							}
+						}
+						return true
+					}) {
+						return
+					}
+					if !yield(c35CtlCase{Side: side, SType: st, Seq: []string{"S"}, Dup: true}) {
+						return
+					}
+				}
+			}
+		}
+		vx.Enumerate(c, "control", vx.Opts{Serial: true, Crumb: true}, genCtl, c35CheckCtl)
+
+		// Over-read part (last: on a tree where these cases kill the child
+		// process every one of them costs a process start, and under a deadline
+		// that must not starve the other parts): HEADERS frames whose field
+		// section ends inside a QPACK element, as message head and as trailers,
+		// with and without frames around them; FIN at every offset from the end
+		// of that frame on.
+		// (Every case that kills the child costs a process start: the quick tier
+		// takes one kind per mechanism - first byte of an element, continuation of
+		// an index, continuation of a string length.)
+		overKinds := vx.Pick(c, []string{"Oe", "Oi", "Ov"}, []string{"Oe", "Or", "Ob", "Oi", "Ov", "On"})
 		overShapes := vx.Pick(c,
-			[][]string{{"O"}, {"O", "D1"}, {"U21", "O"}, {"H", "O"}, {"H", "O", "D1"}, {"H", "D1", "O"}, {"U21", "H", "O"}},
+			[][]string{{"O"}, {"U21", "O"}, {"H", "O"}, {"H", "O", "D1"}, {"H", "D1", "O"}},
 			[][]string{{"O"}, {"O", "D1"}, {"U21", "O"}, {"Ubig", "O"}, {"H", "O"}, {"H", "O", "D1"}, {"H", "O", "T"}, {"H", "D1", "O"}, {"H", "D0", "O"}, {"H", "U21", "O"}, {"U21", "H", "O"}, {"H", "D5", "O", "D1"}, {"H", "O", "O"}})
 		genOver := func(yield func(c35StreamCase) bool) {
 			for _, side := range []string{"server", "client"} {
@@ -1380,32 +1417,5 @@ func TestVerif_C35(t *testing.T) {
 		}
 		vx.Enumerate(c, "overread", vx.Opts{Serial: true, Crumb: true}, genOver, c35CheckStream)
 		c35StopChild()
-
-		ctlAlpha := []string{"S", "S6", "Sdup", "Sgre", "Sh2", "Sh3", "Sh4", "Sh5", "Sover", "Sover8", "Sodd", "D", "H", "G", "C", "M", "P", "U21", "U40", "Ubig", "R2", "R9", "pad"}
-		ctlLen := vx.Pick(c, 2, 3)
-		genCtl := func(yield func(c35CtlCase) bool) {
-			for _, side := range []string{"server", "client"} {
-				for _, st := range []string{"control", "push", "encoder", "decoder", "reserved", "unknown2", "truncated"} {
-					max := ctlLen
-					if st != "control" {
-						max = 1
-					}
-					if !vx.Strings(ctlAlpha, 0, max, func(s []string) bool {
-						for _, fin := range []bool{false, true} {
-							if !yield(c35CtlCase{Side: side, SType: st, Seq: s, Fin: fin}) {
-								return false
-							}
-						}
-						return true
-					}) {
-						return
-					}
-					if !yield(c35CtlCase{Side: side, SType: st, Seq: []string{"S"}, Dup: true}) {
-						return
-					}
-				}
-			}
-		}
-		vx.Enumerate(c, "control", vx.Opts{Serial: true, Crumb: true}, genCtl, c35CheckCtl)
 	})
 }
